@@ -368,6 +368,12 @@ def build_nfa(rx, alpha, nfa, start):
         return end
     if k == 'eps':
         return start
+    if k == 'nla':
+        # a look-ahead below the top level: the assertion is dropped, so the
+        # automaton accepts a SUPERSET of the language (recorded; callers
+        # confirm witnesses against the real regex)
+        APPROXIMATED.add(id(nfa))
+        return build_nfa(rx[2], alpha, nfa, start)
     raise Unsupported(k)
 
 
@@ -444,6 +450,9 @@ def prefix_closure_language(d):
     return determinize(nfa, d.start, {sink}, d.nsym)
 
 
+APPROXIMATED = set()
+
+
 class Languages:
     """A family of regexes compared over one common alphabet."""
 
@@ -457,7 +466,28 @@ class Languages:
             self.notes[name] = notes
             atoms(rx, acc)
         self.alpha = Alphabet(acc)
-        self.dfa = {n: to_dfa(rx, self.alpha) for n, rx in self.rx.items()}
+        self.dfa = {}
+        self.approx = set()      # names whose automaton is a superset
+        self.patterns = {n: (p, fl if fl is not None else flags)
+                         for n, (p, fl) in patterns.items()}
+        for n, rx in self.rx.items():
+            before = len(APPROXIMATED)
+            self.dfa[n] = to_dfa(rx, self.alpha)
+            if len(APPROXIMATED) != before:
+                self.approx.add(n)
+
+    def _confirm(self, name, word):
+        """For an over-approximated language: does the real regex match the
+        witness?  (python's re applied to the pattern text and a string the
+        analysis produced; nothing of the repository runs.)"""
+        if word is None or name not in self.approx:
+            return True
+        import re as _re
+        pat, fl = self.patterns[name]
+        try:
+            return _re.fullmatch(pat, word, fl or 0) is not None
+        except _re.error:
+            return False
 
     def word(self, syms):
         if syms is None:
@@ -485,7 +515,12 @@ class Languages:
 
     def difference_witness(self, a, b):
         """A word in L(a) \\ L(b), or None."""
-        return self.word(self.dfa[a].product(self.dfa[b], 'diff').witness())
+        w = self.word(self.dfa[a].product(self.dfa[b], 'diff').witness())
+        if w is not None and not self._confirm(a, w):
+            raise Unsupported('look-ahead inside %s: the witness %r of the '
+                              'approximation is not a word of the regex'
+                              % (a, w))
+        return w
 
     def included(self, a, b):
         return self.dfa[a].product(self.dfa[b], 'diff').empty()
